@@ -109,12 +109,17 @@ class ParseTimeout(argparse.Action):
 
     @staticmethod
     def unparse(value: float) -> str:
-        # less than 1s, render as ms
-        if value < 1:
-            return f"{int(value * 1000)}ms"
+        # whole seconds render as s
+        if value >= 1 and value == int(value):
+            return f"{int(value)}s"
 
-        # otherwise, render as s
-        return f"{int(value)}s"
+        # whole milliseconds render as ms
+        ms = value * 1000
+        if ms == int(ms) and int(ms) / 1000 == value:
+            return f"{int(ms)}ms"
+
+        # anything else renders exactly, as fractional seconds
+        return f"{value!r}s"
 
 
 class ParseCSVTraceEvent(argparse.Action):
